@@ -57,6 +57,13 @@ theorem tie_option_constants :
     Gen.StoreWrite.onDuplicateInsertError = 0 ∧ Gen.StoreWrite.onDuplicateInsertIgnore = 1 := by
   refine ⟨?_, ?_, ?_, ?_, ?_, ?_, ?_, ?_⟩ <;> decide
 
+/-- sqlite.write decides "missing delete" / "duplicate write" by looking the request key up in the rows the SELECT
+    returned (`!ok` at the head of the deletes loop, `ok` at the head of the writes loop) -/
+theorem tie_sql_existence_guards :
+    Gen.StoreWrite.sqlMissingGuard = "_, ok := existing[tupleUtils.TupleKeyToString(tk)]; !ok" ∧
+    Gen.StoreWrite.sqlDupGuard = "existingTuple, ok := existing[tupleUtils.TupleKeyToString(tk)]; ok" := by
+  constructor <;> decide
+
 def memCompareRaw : String :=
   "record.ConditionName == tk.GetCondition().GetName() && record.ConditionContext.String() == tk.GetCondition().GetContext().String()"
 def memCompareNormalised : String :=
